@@ -73,6 +73,8 @@ add(
     H("u_skip_string_n8", "main", ["C02", "C14", "C09", "C01"],
       ["Parser::skip_string", "Parser::skip_escaped_chars", "Read::{peek,peek_n,next,next_n,eat,remain}"],
       "every byte string of length <= 8 after an opening quote (scalar path)", stubs=[CUT_SYNTAX], cost=70),
+    H("u_skip_number_unchecked_span_n7", "main", ["C12", "C13", "C10"], ["Parser::skip_number_unsafe (the number arm of skip_one_unchecked)", "Parser::get_next_token", "parser::is_whitespace"],
+      "every buffer of length <= 7 that starts with a well-formed number followed by blanks and a separator or the end: the reader stops exactly at the end of the number", stubs=[CUT_SYNTAX], cost=60),
     H("u_skip_number_n5", "main", ["C02", "C14", "C08", "C01"], ["Parser::do_skip_number", "Parser::skip_exponent", "Parser::skip_single_digit"],
       "every byte string of length <= 5 starting with '-' or a digit (scalar path)", stubs=[CUT_SYNTAX], cost=257),
     H("u_skip_number_n6", "main", ["C02", "C14", "C08"], ["Parser::do_skip_number", "Parser::skip_exponent", "Parser::skip_single_digit"],
